@@ -6,7 +6,11 @@ import (
 	"go/constant"
 	"go/token"
 	"go/types"
+	"regexp"
+	"strconv"
 	"strings"
+
+	"golang.org/x/tools/go/ssa"
 )
 
 // Env: evaluation environment for a contract expression.
@@ -28,6 +32,7 @@ type BVal struct {
 	Val  Term
 	Cell *Loc
 	Type types.Type
+	SSA  ssa.Value // the SSA value bound (call sites), for call(f, ...) on closures
 }
 
 func (e *Env) with(name string, v Term) *Env {
@@ -216,7 +221,19 @@ func (e *Env) evalBinary(n *ast.BinaryExpr) Term {
 	case token.LOR:
 		return or(e.eval(n.X), e.eval(n.Y))
 	}
-	a, b := e.eval(n.X), e.eval(n.Y)
+	var a, b Term
+	switch {
+	case isNilExpr(n.Y) && !isNilExpr(n.X):
+		a = e.eval(n.X)
+		e.st.sc.ensureSort(a.Sort)
+		b = e.u().zero(a.Sort)
+	case isNilExpr(n.X) && !isNilExpr(n.Y):
+		b = e.eval(n.Y)
+		e.st.sc.ensureSort(b.Sort)
+		a = e.u().zero(b.Sort)
+	default:
+		a, b = e.eval(n.X), e.eval(n.Y)
+	}
 	ta := e.typeOf(n.X)
 	switch n.Op {
 	case token.EQL, token.NEQ:
@@ -495,6 +512,18 @@ func (e *Env) evalCall(n *ast.CallExpr) Term {
 			e.fail(n, "visited() is only defined in invariants of map-range loops")
 		}
 		return app(SBool, v.S, e.eval(n.Args[0]))
+	case "call":
+		// call(f, args...): the value a pure closure returns
+		id, ok := n.Args[0].(*ast.Ident)
+		if !ok {
+			e.fail(n, "call(): first argument must be a function-typed binder")
+		}
+		bv := e.vars[id.Name]
+		var args []Term
+		for _, a := range n.Args[1:] {
+			args = append(args, e.eval(a))
+		}
+		return e.st.ex.applyPureClosure(e, n, bv, args)
 	case "itercount":
 		v, ok := e.ghost["$itercount"]
 		if !ok {
@@ -533,11 +562,44 @@ func (e *Env) callPure(n *ast.CallExpr, pf *PureFunc) Term {
 	info := e.st.ex.prog.infoFor(pf.PkgPath)
 	ne := &Env{st: e.st, pkgPath: pf.PkgPath, info: info, vars: map[string]BVal{}, cur: e.cur, old: e.old, ghost: e.ghost, ghost0: e.ghost0, allocLo: e.allocLo, depth: e.depth + 1}
 	i := 0
+	fsig, _ := e.info.TypeOf(n.Fun).(*types.Signature)
 	for _, fld := range decl.Type.Params.List {
 		for _, nm := range fld.Names {
-			ne.vars[nm.Name] = BVal{Val: e.eval(n.Args[i])}
+			v := e.eval(n.Args[i])
+			if fsig != nil && i < fsig.Params().Len() {
+				if _, isI := fsig.Params().At(i).Type().Underlying().(*types.Interface); isI && v.Sort != SIface {
+					v = e.st.makeIface(v, e.typeOf(n.Args[i]))
+				}
+			}
+			ne.vars[nm.Name] = BVal{Val: v}
 			i++
 		}
+	}
+	if pf.Abstract {
+		sig := e.info.TypeOf(n.Fun).(*types.Signature)
+		var sorts []Sort
+		var args []Term
+		i := 0
+		for _, fld := range decl.Type.Params.List {
+			for _, nm := range fld.Names {
+				v := ne.vars[nm.Name].Val
+				sorts = append(sorts, v.Sort)
+				args = append(args, v)
+				i++
+			}
+		}
+		rs := e.u().sortOf(sig.Results().At(0).Type())
+		name := "U." + sanitize(strings.TrimPrefix(pf.PkgPath, modPath+"/")) + "." + pf.Name
+		// an abstract function of a slice depends on the slice's contents:
+		// one function symbol per version of the element family
+		for k := 0; k < sig.Params().Len(); k++ {
+			if stp, ok := sig.Params().At(k).Type().Underlying().(*types.Slice); ok {
+				f := e.st.elemFam(e.u().sortOf(stp.Elem()))
+				name += "." + e.st.symIn(e.cur, f.Name)
+			}
+		}
+		e.st.sc.declFun(name, sorts, rs)
+		return app(rs, name, args...)
 	}
 	if pf.Rec {
 		return ne.callRec(n, pf)
@@ -705,6 +767,30 @@ func (e *Env) evalLocSet(a ast.Expr) []LocSet {
 			return []LocSet{{Fam: d.Name, Obj: m, All: true, Desc: ds}, {Fam: v.Name, Obj: m, All: true, Desc: ds}, {Fam: l.Name, Obj: m, All: true, Desc: ds}}
 		case "old":
 			return e.inOld().evalLocSet(n.Args[0])
+		case "pointee":
+			// the memory behind a pointer that travels inside an interface value:
+			// the pointee type is read off the (statically known) dynamic type
+			v := e.eval(n.Args[0])
+			m := regexp.MustCompile(`^\(mk-iface (\d+) (.*)\)$`).FindStringSubmatch(v.S)
+			if m == nil {
+				e.fail(n, "pointee(): dynamic type of the argument is not statically known")
+			}
+			tid, _ := strconv.Atoi(m[1])
+			pt := e.u().typeByID[tid]
+			if _, ok := pt.Underlying().(*types.Pointer); !ok {
+				e.fail(n, "pointee(): argument holds a %s, not a pointer", pt)
+			}
+			p := Term{m[2], SInt}
+			l := e.st.locOfPointer(p, pt)
+			if l.Kind == LObj {
+				si := e.u().structInfoOf(l.Type)
+				var out []LocSet
+				for i := range si.Fields {
+					out = append(out, LocSet{Fam: e.st.fieldFam(si, i).Name, Obj: p, Desc: "pointee"})
+				}
+				return out
+			}
+			return []LocSet{{Fam: l.Fam, Obj: p, Desc: "pointee"}}
 		}
 	case *ast.Ident:
 		// a captured variable (cell binder) or a global
@@ -729,9 +815,128 @@ func (e *Env) evalLocSet(a ast.Expr) []LocSet {
 	return nil
 }
 
+// pureMethod: x.M(args) inside a contract. For a concrete receiver type with a
+// `method` definition the definition is expanded; for an interface receiver an
+// uninterpreted function M.<name> over the interface value is used, linked to
+// every `method` definition of that name by an axiom over the boxed value.
 func (st *State) pureMethod(e *Env, n *ast.CallExpr, f *ast.SelectorExpr, recvT types.Type, m *types.Func) Term {
-	e.fail(n, "method call %s in spec is not supported yet", m.Name())
-	return Term{}
+	prog := st.ex.prog
+	recv := e.eval(f.X)
+	var args []Term
+	for _, a := range n.Args {
+		args = append(args, e.eval(a))
+	}
+	if _, isIface := recvT.Underlying().(*types.Interface); !isIface {
+		pf := prog.methodDef(recvT, m.Name())
+		if pf == nil {
+			e.fail(n, "method %s.%s has no `method` definition usable in contracts", recvT, m.Name())
+		}
+		return st.expandMethodDef(e, pf, append([]Term{recv}, args...))
+	}
+	sig := m.Type().(*types.Signature)
+	if sig.Results().Len() != 1 {
+		e.fail(n, "pure interface method %s must have exactly one result", m.Name())
+	}
+	rs := st.u().sortOf(sig.Results().At(0).Type())
+	name := "M." + m.Name()
+	sorts := []Sort{SIface}
+	for _, a := range args {
+		sorts = append(sorts, a.Sort)
+	}
+	if !st.sc.declared["fun:"+name] {
+		st.sc.declFun(name, sorts, rs)
+		// link axioms for concrete definitions
+		for _, k := range sortedKeys(prog.Pures) {
+			pf := prog.Pures[k]
+			if pf.Method != m.Name() || pf.RecvType == "" {
+				continue
+			}
+			st.emitMethodLink(e, pf, name, rs)
+		}
+	}
+	return app(rs, name, append([]Term{recv}, args...)...)
+}
+
+func (p *Program) methodDef(recvT types.Type, name string) *PureFunc {
+	for _, k := range sortedKeys(p.Pures) {
+		pf := p.Pures[k]
+		if pf.Method != name || pf.RecvType == "" {
+			continue
+		}
+		if t := p.recvTypeOf(pf); t != nil && types.Identical(t, recvT) {
+			return pf
+		}
+	}
+	return nil
+}
+
+func (p *Program) recvTypeOf(pf *PureFunc) types.Type {
+	pk := p.Pkgs[pf.PkgPath]
+	obj := pk.Types.Scope().Lookup(pf.FnName)
+	if obj == nil {
+		return nil
+	}
+	return obj.Type().(*types.Signature).Params().At(0).Type()
+}
+
+func (st *State) expandMethodDef(e *Env, pf *PureFunc, args []Term) Term {
+	info := st.ex.prog.infoFor(pf.PkgPath)
+	ne := &Env{st: st, pkgPath: pf.PkgPath, info: info, vars: map[string]BVal{}, cur: e.cur, old: e.old, ghost: e.ghost, ghost0: e.ghost0, allocLo: e.allocLo, depth: e.depth + 1}
+	i := 0
+	for _, fld := range pf.Decl.Type.Params.List {
+		for _, nm := range fld.Names {
+			ne.vars[nm.Name] = BVal{Val: args[i]}
+			i++
+		}
+	}
+	ret := pf.Decl.Body.List[len(pf.Decl.Body.List)-1].(*ast.ReturnStmt).Results[0]
+	return ne.eval(ret)
+}
+
+func (st *State) emitMethodLink(e *Env, pf *PureFunc, fname string, rs Sort) {
+	rt := st.ex.prog.recvTypeOf(pf)
+	if rt == nil {
+		return
+	}
+	if _, isPtr := rt.Underlying().(*types.Pointer); isPtr {
+		// heap-dependent definitions are linked per heap version elsewhere
+		return
+	}
+	s := st.u().sortOf(rt)
+	st.sc.ensureSort(s)
+	tid := st.u().typeID(rt)
+	st.sc.nfresh++
+	x := Term{fmt.Sprintf("x!l%d", st.sc.nfresh), s}
+	var boxed Term
+	if s == SInt {
+		boxed = x
+	} else {
+		b, _ := st.boxFns(s)
+		boxed = app(SInt, b, x)
+	}
+	binders := []string{fmt.Sprintf("(%s %s)", x.S, s)}
+	args := []Term{x}
+	callArgs := []Term{mkIface(intLit(int64(tid)), boxed)}
+	np := 0
+	for _, fld := range pf.Decl.Type.Params.List {
+		for range fld.Names {
+			np++
+		}
+	}
+	if np > 1 {
+		sig := st.ex.prog.Pkgs[pf.PkgPath].Types.Scope().Lookup(pf.FnName).Type().(*types.Signature)
+		for k := 1; k < sig.Params().Len(); k++ {
+			ps := st.u().sortOf(sig.Params().At(k).Type())
+			st.sc.nfresh++
+			pv := Term{fmt.Sprintf("a!l%d", st.sc.nfresh), ps}
+			binders = append(binders, fmt.Sprintf("(%s %s)", pv.S, ps))
+			args = append(args, pv)
+			callArgs = append(callArgs, pv)
+		}
+	}
+	body := st.expandMethodDef(e, pf, args)
+	lhs := app(rs, fname, callArgs...)
+	st.sc.emit("(assert (forall (%s) (! (= %s %s) :pattern (%s))))", strings.Join(binders, " "), lhs.S, body.S, lhs.S)
 }
 
 func (e *Env) callRec(n *ast.CallExpr, pf *PureFunc) Term {
